@@ -74,8 +74,10 @@ const SLASH_NESTING: &[Form] = &[line("//"), block("/*", "*/"), decorated("/**",
 const HASH: &[Form] = &[line("#")];
 
 pub const KITS: &[Kit] = &[
-    Kit { grammar: "bash", files: &["x.sh", "x.bash"], prologue: "", epilogue: "", code: &["x=1", "echo hi"],
-          decoys: &["s=\"<block name=decoy> </block>\"", "echo '# <block name=decoy> </block>'"], forms: HASH, blank_between: false, indent_ok: true },
+    // A `#!` comment that is not on the first line is a comment like any other (the prologue
+    // keeps the kit's segments off line 1, where `#!` is the shebang).
+    Kit { grammar: "bash", files: &["x.sh", "x.bash"], prologue: "x0=0\n", epilogue: "", code: &["x=1", "echo hi"],
+          decoys: &["s=\"<block name=decoy> </block>\"", "echo '# <block name=decoy> </block>'"], forms: &[line("#"), line("#!")], blank_between: false, indent_ok: true },
     Kit { grammar: "c", files: &["x.c"], prologue: "", epilogue: "", code: &["int x = 1;", "void f(void) { }"],
           decoys: &["const char *s = \"<block name=decoy> </block>\";", "const char *t = \"// <block name=decoy> </block>\";"], forms: SLASH, blank_between: false, indent_ok: true },
     Kit { grammar: "cpp", files: &["x.cpp", "x.cc", "x.h"], prologue: "", epilogue: "", code: &["int x = 1;", "namespace n { }"],
@@ -378,8 +380,9 @@ impl<'k> Renderer<'k> {
         // Extra attributes are written with the quote character of the comment form.
         // Every second tag also carries a bare attribute with a non-ASCII name and an unquoted
         // non-ASCII value (attribute names and unquoted values are not limited to ASCII).
-        let unicode = if self.counter % 2 == 0 { " größe ключ=é1" } else { "" };
-        let tag = format!("<block name={quote}{name}{quote}{unicode}{}>", self.extra_attrs.replace('"', &quote.to_string()));
+        // … and a quoted value holding comment markers of other comment forms.
+        let unicode = if self.counter % 2 == 0 { " größe ключ=é1 ref=\"a#b//c\"" } else { "" };
+        let tag = format!("<block name={quote}{name}{quote}{}{}>", unicode.replace('"', &quote.to_string()), self.extra_attrs.replace('"', &quote.to_string()));
         self.out.text.push_str(&tag);
         (name, lt, lt + tag.len() - 1)
     }
